@@ -78,6 +78,8 @@ finally:
         if f.endswith(".json"):
             os.remove(os.path.join("/verif/replays", f))
     subprocess.run(["git", "checkout", "--", "evidence"], cwd="/verif")
+    # the binaries in /verif/bin were built from the mutated tree: rebuild them from the clean one
+    subprocess.run(["./build.sh", {"C09": "fs", "C11": "fs", "C18": "cache"}.get(prop, "world")], cwd="/verif", stdout=subprocess.DEVNULL)
 print("check detects:", meta.get("check_detects"))
 print(meta.get("check_output", "")[:1500])
 # ---- 3. record
